@@ -133,6 +133,34 @@ func (c *Ctx) Who(rule string, m M, what string, allowed ...string) int {
 		pos string
 		ok  bool
 	}
+	// A function is allowed if it is listed, or if it is a private helper of allowed functions:
+	// unexported, never used as a value, and called (statically) only from allowed functions.
+	// Extracting part of an owner into a helper therefore does not change the verdict.
+	var allowedFn func(top *ssa.Function, d int) bool
+	allowedFn = func(top *ssa.Function, d int) bool {
+		name := QName(top)
+		if allow[name] {
+			return true
+		}
+		for _, p := range prefixes {
+			if strings.HasPrefix(name, p) {
+				return true
+			}
+		}
+		if d >= 2 || top.Object() == nil || top.Object().Exported() {
+			return false
+		}
+		idx := c.P.callIndex()
+		if idx.valueRef[top] || len(idx.callers[top]) == 0 {
+			return false
+		}
+		for _, caller := range idx.callers[top] {
+			if ct := TopLevel(caller); ct != top && !allowedFn(ct, d+1) {
+				return false
+			}
+		}
+		return true
+	}
 	var sites []site
 	for _, fn := range c.P.AllFuncs {
 		if fn.Synthetic != "" && fn.Parent() == nil {
@@ -148,13 +176,7 @@ func (c *Ctx) Who(rule string, m M, what string, allowed ...string) int {
 				}
 				n++
 				c.CallSites++
-				top := QName(TopLevel(fn))
-				ok := allow[top]
-				for _, p := range prefixes {
-					if strings.HasPrefix(top, p) {
-						ok = true
-					}
-				}
+				ok := allowedFn(TopLevel(fn), 0)
 				sites = append(sites, site{fn, c.P.Pos(in.Pos()), ok})
 			}
 		}
@@ -233,3 +255,66 @@ func recvIsField(v ssa.Value, f *types.Var) bool {
 // OnField matches calls of the named method (short name) whose receiver is
 // field f.
 func OnField(f *types.Var, methods ...string) M { return AtomicOp(f, methods...) }
+
+// callIndex: static callers of every function, and the functions that are used as values
+// (stored, passed, bound as method values) — their callers are not statically known.
+type callIdx struct {
+	callers  map[*ssa.Function][]*ssa.Function
+	valueRef map[*ssa.Function]bool
+}
+
+func (p *Program) callIndex() *callIdx {
+	if p.cidx != nil {
+		return p.cidx
+	}
+	idx := &callIdx{callers: map[*ssa.Function][]*ssa.Function{}, valueRef: map[*ssa.Function]bool{}}
+	for _, fn := range p.AllFuncs {
+		for _, b := range fn.Blocks {
+			for _, in := range b.Instrs {
+				var callee ssa.Value
+				switch x := in.(type) {
+				case *ssa.Call:
+					callee = x.Call.Value
+					if cal := x.Common().StaticCallee(); cal != nil {
+						idx.callers[cal] = append(idx.callers[cal], fn)
+					}
+				case *ssa.Defer:
+					callee = x.Call.Value
+					if cal := x.Call.StaticCallee(); cal != nil {
+						idx.callers[cal] = append(idx.callers[cal], fn)
+					}
+				case *ssa.Go:
+					callee = x.Call.Value
+					if cal := x.Call.StaticCallee(); cal != nil {
+						idx.callers[cal] = append(idx.callers[cal], fn)
+					}
+				}
+				for _, op := range in.Operands(nil) {
+					if op == nil || *op == nil {
+						continue
+					}
+					if f, ok := (*op).(*ssa.Function); ok && *op != callee {
+						idx.valueRef[f] = true
+						if f.Origin() != nil {
+							idx.valueRef[f.Origin()] = true
+						}
+						// a bound-method / thunk wrapper stands for the method it calls
+						if f.Synthetic != "" {
+							for _, wb := range f.Blocks {
+								for _, wi := range wb.Instrs {
+									if wc, ok := wi.(*ssa.Call); ok {
+										if cal := wc.Common().StaticCallee(); cal != nil {
+											idx.valueRef[cal] = true
+										}
+									}
+								}
+							}
+						}
+					}
+				}
+			}
+		}
+	}
+	p.cidx = idx
+	return idx
+}
